@@ -139,6 +139,10 @@ func VerifPositionLong() {
 	second := ctx[nl+1:]
 	caret := len(second) - 1 - 7 // index into first
 	vAssert(len(first) <= 60+6, "context-too-long")
+	if L <= 60 {
+		// a line within the limit is shown in full
+		vAssert(len(first) == L, "line-within-the-limit-elided")
+	}
 	vAssert(second[len(second)-1] == '^' && caret >= 0 && caret <= len(first), "caret-position")
 	if off < L {
 		vAssert(caret < len(first) && first[caret] == marker, "caret-not-under-offset-character")
